@@ -109,9 +109,10 @@ def as_arg(x, d):
     return x + d
 
 
-def jd(f, x, d, exact):
+def jd(f, x, d, exact, step=1.0):
     if exact:
-        return onp.asarray(f(as_arg(x, d))) - onp.asarray(f(x))
+        # (step is a power of two and the data dyadic, so the scaling is exact too)
+        return (onp.asarray(f(as_arg(x, step * d))) - onp.asarray(f(x))) / step
     h = 1e-3
 
     def cd(hh):
@@ -134,9 +135,12 @@ def kind(a):
 
 
 class Case:
-    def __init__(self, prim, tag, f, args, diff, exact, note=None, modes=("rev", "fwd")):
+    def __init__(self, prim, tag, f, args, diff, exact, note=None, modes=("rev", "fwd"), step=1.0):
         self.prim, self.tag, self.f, self.args, self.diff, self.exact = prim, tag, f, list(args), diff, exact
         self.modes = modes
+        self.step = step          # size of the exact oracle's displacement (piecewise-linear functions close to a kink)
+        self.flat_im = False       # complex tangent / cotangent with zero imaginary parts (a real direction in a complex space)
+        self.pairing_only = False  # a point ON a kink: no true Jacobian to compare with, but the two modes must still pair (C04)
 
 
 def run_case(c, rng, props):
@@ -154,7 +158,9 @@ def run_case(c, rng, props):
                 ro.append(b)
             else:
                 ro.append(a)
-        c = Case(c.prim, c.tag, c.f, ro, c.diff, c.exact, modes=c.modes)
+        po, fi = c.pairing_only, c.flat_im
+        c = Case(c.prim, c.tag, c.f, ro, c.diff, c.exact, modes=c.modes, step=c.step)
+        c.pairing_only, c.flat_im = po, fi
     for k in c.diff:
         x = c.args[k]
 
@@ -176,6 +182,9 @@ def run_case(c, rng, props):
         g = iarr(rng, yv.shape, 1, 3, cplx=cplx_out)
         xa = onp.asarray(x)
         v = iarr(rng, xa.shape, 1, 3, cplx=onp.iscomplexobj(xa))
+        if c.flat_im:
+            g = g.real + 0j if onp.iscomplexobj(g) else g
+            v = v.real + 0j if onp.iscomplexobj(v) else v
         vj = jv = None
         if "rev" in c.modes:
             try:
@@ -217,7 +226,7 @@ def run_case(c, rng, props):
                         problems.append(("C01", k, "VJP not finite at a regular point"))
                     else:
                         for d in directions(xa):
-                            lhs, rhs = rdot(vja, d), rdot(g, jd(fk_np, x, d, c.exact))
+                            lhs, rhs = rdot(vja, d), rdot(g, jd(fk_np, x, d, c.exact, c.step))
                             if not close(lhs, rhs, c.exact):
                                 # a real argument with a complex result belongs to both properties
                                 for p in (["C09"] if onp.iscomplexobj(xa) else (["C01", "C09"] if cplx_out else ["C01"])):
@@ -247,7 +256,7 @@ def run_case(c, rng, props):
                 if jva.shape != yv.shape:
                     problems.append(("C02", k, "JVP shape %s != output shape %s" % (jva.shape, yv.shape)))
                 else:
-                    true = jd(fk_np, x, v.reshape(xa.shape), c.exact)
+                    true = jd(fk_np, x, v.reshape(xa.shape), c.exact, c.step)
                     ok = onp.all(jva == true) if c.exact else onp.all(onp.abs(jva - true) <= 2e-6 * (1 + onp.abs(true)))
                     if not ok:
                         for p in (["C09"] if onp.iscomplexobj(xa) else (["C02", "C09"] if cplx_out else ["C02"])):
@@ -259,6 +268,8 @@ def run_case(c, rng, props):
                         mass = float(onp.sum(onp.abs(onp.asarray(g) * jva)) + onp.sum(onp.abs(onp.asarray(vj) * v.reshape(xa.shape))))
                         if not (a == b if c.exact else abs(a - b) <= 1e-10 * (1.0 + mass)):
                             problems.append(("C04", k, "<g, jvp v> = %r but <vjp g, v> = %r" % (a, b)))
+    if c.pairing_only:
+        problems = [q for q in problems if q[0] in ("C04", "C05", "C10", "harness")]
     return problems, stats
 
 
@@ -267,8 +278,8 @@ def cases(rng, tier):
     out = []
     big = tier == "thorough"
 
-    def add(prim, tag, f, args, diff, exact, modes=("rev", "fwd")):
-        out.append(Case(prim, tag, f, args, diff, exact, modes=modes))
+    def add(prim, tag, f, args, diff, exact, modes=("rev", "fwd"), step=1.0):
+        out.append(Case(prim, tag, f, args, diff, exact, modes=modes, step=step))
 
     def pick(lst, n):
         return lst if big or len(lst) <= n else rng.sample(lst, n)
@@ -450,6 +461,28 @@ def cases(rng, tier):
     lin("where", "arrays", (lambda m, a, b: m.where(cond, a, b)), [iarr(rng, A23), iarr(rng, A23)], (0, 1))
     lin("where", "broadcast-branch", (lambda m, a, b: m.where(cond, a, b)), [iarr(rng, (3,)), iarr(rng, (2, 1))], (0, 1))
     lin("where", "scalar-branch", (lambda m, a, b: m.where(cond, a, b)), [2.0, iarr(rng, A23)], (0, 1))
+    # ---- regular points CLOSE to a kink: the runner-up is within 2^-20 (relative) of the extremum / the bound, which
+    #      is not a tie.  Piecewise linear, so the exact oracle applies with a displacement far below the gap. ----
+    tiny, eps = 2.0 ** -40, 2.0 ** -20
+    near = onp.array([[0.25, 1.0, 1.0 + eps], [-2.0 - eps, 0.5, -2.0]])
+    huge = onp.array([[2.0 ** 30, 2.0 ** 30 + 2.0 ** 10, 5.0], [7.0, -2.0 ** 30, -2.0 ** 30 - 2.0 ** 9]])
+    for rname in ("max", "min", "amax", "amin"):
+        for axn, kw in (("all", {}), ("axis=1", {"axis": 1}), ("axis=0 keepdims", {"axis": 0, "keepdims": True}), ("axis=(0,1)", {"axis": (0, 1)})):
+            add(rname, "near-tie %s" % axn, (lambda m, z, rname=rname, kw=kw: getattr(m, rname)(z, **kw)), [near], [0], True, step=tiny)
+            add(rname, "near-tie at 2^30 %s" % axn, (lambda m, z, rname=rname, kw=kw: getattr(m, rname)(z, **kw)), [huge], [0], True, step=2.0 ** -12)
+    for bname in ("maximum", "minimum", "fmax", "fmin"):
+        add(bname, "near-tie operands", (lambda m, a, b, bname=bname: getattr(m, bname)(a, b)),
+            [near, near + eps * onp.array([[1.0, -1.0, 1.0], [-1.0, 1.0, -1.0]])], [0, 1], True, step=tiny)
+        add(bname, "near-tie with scalar", (lambda m, a, bname=bname: getattr(m, bname)(a, 1.0 + eps / 2)), [near], [0], True, step=tiny)
+    add("clip", "entries within 2^-20 of the bounds", (lambda m, z: m.clip(z, -2.0 - eps / 2, 1.0 + eps / 2)), [near], [0], True, step=tiny)
+    add("abs", "entries within 2^-20 of 0", (lambda m, z: m.abs(z)), [onp.array([eps, -eps, 1.0, -2.0])], [0], True, step=tiny)
+    add("sort", "near-ties", (lambda m, z: m.sort(z, axis=1)), [near], [0], True, step=tiny)
+    add("where", "threshold 2^-20 away", (lambda m, z: m.where(z > 1.0 + eps / 2, z, 2.0 * z)), [near], [0], True, step=tiny)
+    # any array is a condition (non-zero selects): integer counts, float weights, with zeros among them
+    for cname, cnd in (("int counts", onp.array([[0, 2, 1], [3, 0, -1]])), ("float weights", onp.array([[0.0, 0.5, -1.0], [2.0, 0.0, 1.5]])),
+                       ("float row", onp.array([0.0, -2.5, 3.0]))):
+        lin("where", "condition of %s" % cname, (lambda m, a, b, cnd=cnd: m.where(cnd, a, b)), [iarr(rng, A23), iarr(rng, A23)], (0, 1))
+        lin("where", "condition of %s, scalar branch" % cname, (lambda m, a, b, cnd=cnd: m.where(cnd, a, b)), [iarr(rng, A23), 1.5], (0, 1))
     # the condition itself differentiated (its rule is registered as None: zero of the CONDITION's space)
     add("where", "float condition (3,) vs (2,3) branches", (lambda m, c, a, b: m.where(c, a, b)),
         [onp.array([1.0, -3.0, 2.0]), iarr(rng, A23), iarr(rng, A23)], [0], False, modes=("rev",))
@@ -464,6 +497,13 @@ def cases(rng, tier):
         lin("diff", "n=%d axis=%d" % (n, ax), (lambda m, z, n=n, ax=ax: m.diff(z, n=n, axis=ax)), [iarr(rng, (3, 4))])
     lin("gradient", "1-D", (lambda m, z: m.gradient(z)), [iarr(rng, (5,))])
     lin("gradient", "2-D axis=0", (lambda m, z: m.gradient(z, axis=0)), [iarr(rng, (5, 4))])
+    lin("gradient", "2-D axis=-1", (lambda m, z: m.gradient(z, axis=-1)), [iarr(rng, (5, 4))], modes=("rev",))
+    for axs in ((0, 1), [1, 0], (1,), (-1, 0), None):
+        lin("gradient", "2-D axis=%r (several results)" % (axs,),
+            (lambda m, z, axs=axs: (lambda r: r[0] * 2.0 + r[-1])(m.gradient(z, axis=axs) if axs is None or len(axs) > 1 else [m.gradient(z, axis=axs)[0]] if isinstance(m.gradient(z, axis=axs), (list, tuple)) else [m.gradient(z, axis=axs)])),
+            [iarr(rng, (5, 4))], modes=("rev",))
+    lin("gradient", "3-D axis=(0, 2)", (lambda m, z: (lambda r: r[0] - 3.0 * r[1])(m.gradient(z, axis=(0, 2)))), [iarr(rng, (3, 2, 4))], modes=("rev",))
+    lin("gradient", "2-D spacing 2.0, 0.5", (lambda m, z: (lambda r: r[0] + r[1])(m.gradient(z, 2.0, 0.5))), [iarr(rng, (4, 4))], modes=("rev",))
     lin("astype", "float32", (lambda m, z: z.astype(onp.float32)), [iarr(rng, A23)], modes=("rev",))
     lin("array", "nested-list", (lambda m, a, b: m.array([[a, b], [b, a]])), [2.0, 3.0], (0, 1))
     lin("array", "list-of-arrays", (lambda m, a, b: m.array([a, b])), [iarr(rng, (3,)), iarr(rng, (3,))], (0, 1))
@@ -755,6 +795,25 @@ def main():
         cs = cs + impl_rules_extra.extra_cases(rng, cfg.get("tier", "quick"))
     if props & {"C09", "C05", "C04"}:
         cs = cs + complex_cases(rng, cfg.get("tier", "quick"))
+        # the kind (real / complex) of a result is decided by the spaces involved, never by the VALUES that happen to be
+        # there: the same rows with real-valued directions and cotangents, and (where every point is regular) at
+        # complex-dtype points whose imaginary parts are all zero
+        more = []
+        for c in complex_cases(rng, cfg.get("tier", "quick")):
+            c1 = Case(c.prim, c.tag + " [real-valued direction and cotangent]", c.f, c.args, c.diff, c.exact, modes=c.modes)
+            c1.flat_im = True
+            more.append(c1)
+            if c.exact:
+                c2 = Case(c.prim, c.tag + " [complex dtype, zero imaginary parts]", c.f,
+                          [a.real + 0j if isinstance(a, onp.ndarray) and onp.iscomplexobj(a) else a for a in c.args], c.diff, True, modes=c.modes)
+                more.append(c2)
+        zc = iarr(rng, (4,), cplx=True)
+        for tag, pt in (("genuinely complex point", zc), ("real-valued complex point", zc.real + 0j)):
+            for fl in (False, True):
+                c3 = Case("real_if_close", tag + (" real-valued direction" if fl else "") + " complex", (lambda m, z: m.real_if_close(z) * 2.0), [pt], [0], False)
+                c3.flat_im, c3.pairing_only = fl, True     # (the kind of the result changes at such points: structure checks only)
+                more.append(c3)
+        cs = cs + more
     only = cfg.get("only")
     out = {"n": 0, "keys": [], "bad": [], "dist": {}, "raised": 0, "samples": []}
     for c in cs:
@@ -810,7 +869,8 @@ def main():
     second = [c for c in clean if rng.random() < frac2]
     rng.shuffle(second)
     for c in second:
-        c2 = Case(c.prim, c.tag, c.f, [relayout(a) for a in c.args], c.diff, c.exact, modes=c.modes)
+        c2 = Case(c.prim, c.tag, c.f, [relayout(a) for a in c.args], c.diff, c.exact, modes=c.modes, step=c.step)
+        c2.pairing_only, c2.flat_im = c.pairing_only, c.flat_im
         out["dist"]["second-pass (other order, other layouts)"] = out["dist"].get("second-pass (other order, other layouts)", 0) + 1
         try:
             problems, _ = run_case(c2, rng, props)
